@@ -39,3 +39,23 @@ func VerifWrapRoot(root VectorOperator, query string, start, end, step int64) Ve
 	}
 	return root
 }
+
+var verifPoolPutFn atomic.Value // func(ids []uint64, samples []float64, batch []StepVector)
+
+// SetVerifPoolPut installs (or, with nil, removes) the function that sees every buffer on its
+// way back into a VectorPool: the full-capacity sample ID and sample slices of a step vector,
+// or the full-capacity slice of a batch. Nobody may look at a buffer after it was put back,
+// so the harness is free to overwrite it (which makes a use after put visible).
+func SetVerifPoolPut(f func(ids []uint64, samples []float64, batch []StepVector)) {
+	if f == nil {
+		f = func([]uint64, []float64, []StepVector) {}
+	}
+	verifPoolPutFn.Store(f)
+}
+
+// VerifPoolPut is called by VectorPool.PutStepVector and VectorPool.PutVectors.
+func VerifPoolPut(ids []uint64, samples []float64, batch []StepVector) {
+	if f, ok := verifPoolPutFn.Load().(func([]uint64, []float64, []StepVector)); ok {
+		f(ids[:cap(ids)], samples[:cap(samples)], batch[:cap(batch)])
+	}
+}
